@@ -202,6 +202,14 @@ fn comps(dir: &str) -> Vec<&str> {
 /// (`x.scss` -> x, x.scss; `_x.scss` -> x, _x, _x.scss; `x/index.scss` -> x, x/index, …)
 fn stems(fname_with_parent: (&str, &str), rng: &mut Rng, allow_dir_index: bool) -> (Vec<String>, bool) {
     let (parentname, fname) = fname_with_parent;
+    if let Some(base) = fname.strip_suffix(".css") {
+        // a plain css file: by bare name (last candidates) or by its exact name
+        let mut v = vec![base.trim_start_matches('_').to_string(), fname.to_string()];
+        if base.starts_with('_') {
+            v.push(base.to_string());
+        }
+        return (v, false);
+    }
     let base = fname.trim_end_matches(".scss");
     let mut v = vec![];
     let mut uses_parent = false;
